@@ -4,7 +4,7 @@ import indx_common as X
 
 ID = "C12"
 LEAN_MODULES = ["CatiiProps.C12"]
-USES_TRANSLATOR = True
+USES_TRANSLATOR = ['fit_dtype', 'consts', 'indx_fileops']
 RULE = ("files from C10's exhaustive level and random small cases; for each file F every cut point 0 <= k < len(F) is "
         "loaded through the real loader (exhaustive over k, as the quantifier demands); the model's error class is "
         "compared at every k; in addition the writer itself is interrupted (a row-id array fails after h bytes: first/middle/last entry, h = 0, 1, 4, half, all but one byte; files up to 280 kB) and what it left on disk is loaded. Non-trivial = a (file, k) pair with k >= 16 (header intact); distinct by (file, k)")
